@@ -1632,5 +1632,335 @@ def cmd_stddump(args):
 CMDS["stddump"] = cmd_stddump
 
 
+
+# ---------------------------------------------------------------------------
+# C12 listings: total, faithful to the instruction stream, clean
+
+import re as _re
+
+_INST_RE = _re.compile(r"^(?P<ln>\s*\d+:)?\s*(?P<cur>-->)?\s*(?P<jt>>>)?\s*(?P<off>\d+) (?:\|(?P<hex>[0-9a-f ]+)\| ?)?(?P<op>\S+)(?:\s+(?P<operand>.*))?$")
+_ADDR_RE = _re.compile(r"0x[0-9a-fA-F]+")
+_EXC_RE = _re.compile(r"^\s+\d+ to -?\d+ -> \d+ \[\d+\]( lasti)?$")
+
+
+def parse_listing(text):
+    """Split a classic/bytes listing into per-code-object instruction rows.
+    Returns (rows, unparsed) where rows is a list of dicts in order."""
+    rows = []
+    unparsed = []
+    in_exc = False
+    for ln in text.split("\n"):
+        if not ln.strip():
+            continue
+        if ln.startswith("#"):
+            in_exc = False
+            continue
+        if ln.startswith("ExceptionTable:"):
+            in_exc = True
+            continue
+        if in_exc and _EXC_RE.match(ln):
+            continue
+        in_exc = False
+        m = _INST_RE.match(ln)
+        if not m:
+            unparsed.append(ln)
+            continue
+        d = m.groupdict()
+        rows.append({"line": int(d["ln"].strip()[:-1]) if d["ln"] else None, "jt": bool(d["jt"]), "off": int(d["off"]),
+                     "op": d["op"], "operand": (d["operand"] or "").strip(), "hex": d["hex"]})
+    return rows, unparsed
+
+
+def expected_rows(co, opc):
+    """The instruction stream, code objects in the queue order the listing uses."""
+    from collections import deque
+
+    from xdis.bytecode import Bytecode
+    from xdis.codetype.base import iscode
+
+    out = []
+    q = deque([co])
+    while q:
+        c = q.popleft()
+        out.append(("code", c))
+        for ins in Bytecode(c, opc, dup_lines=True):
+            out.append(("ins", ins))
+        for k in c.co_consts:
+            if iscode(k):
+                q.append(k)
+    return out
+
+
+class FdWatch:
+    """Bytes appearing on fd 1 / fd 2 (already redirected to sink files by
+    main()) and on sys.stdout / sys.stderr during a call."""
+
+    def __enter__(self):
+        sys.stdout.flush()
+        sys.stderr.flush()
+        self.s1 = os.fstat(1).st_size
+        self.s2 = os.fstat(2).st_size
+        return self
+
+    def __exit__(self, *a):
+        sys.stdout.flush()
+        sys.stderr.flush()
+        self.out = os.fstat(1).st_size - self.s1
+        self.err = os.fstat(2).st_size - self.s2
+        return False
+
+    def tail(self, fd, n):
+        try:
+            with open("/proc/self/fd/%d" % fd, "rb") as f:
+                f.seek(max(0, os.fstat(fd).st_size - n))
+                return f.read().decode("utf-8", "replace")
+        except Exception:
+            return ""
+
+
+def cmd_listings(args):
+    from xdis.disasm import disassemble_file, get_opcode
+    from xdis.load import load_module
+
+    acc = Acc()
+    formats = args["formats"]
+    for item in args["files"]:
+        pyc = item["pyc"]
+        label = item.get("label", pyc)
+        vtag = item.get("vtag", "?")
+        try:
+            (version, ts, magic_int, co, is_pypy, size, sip) = load_module(pyc)
+        except BaseException as e:
+            if isinstance(e, (KeyboardInterrupt, SystemExit)):
+                raise
+            acc.count("unloadable_input:" + vtag)
+            continue
+        V = tuple(version[:2])
+        nontriv = False
+        try:
+            nontriv = any(hasattr(c, "co_code") for c in co.co_consts) or len(co.co_code) > 30
+        except Exception:
+            pass
+        stream = None
+        for fmt in formats:
+            acc.evaluations += 1
+            buf = io.StringIO()
+            err = None
+            with FdWatch() as w:
+                try:
+                    disassemble_file(pyc, outstream=buf, asm_format=fmt)
+                except BaseException as e:
+                    if isinstance(e, (KeyboardInterrupt, SystemExit)):
+                        raise
+                    tb = traceback.extract_tb(sys.exc_info()[2])
+                    err = (type(e).__name__, "%s:%s" % (os.path.basename(tb[-1].filename), tb[-1].name), str(e)[:160])
+            if err:
+                acc.mismatch("C12|%s|raises:%s@%s|v%s%s" % (fmt, err[0], err[1], vs(V), "pypy" if is_pypy else ""),
+                             file=label, msg=err[2])
+                continue
+            if w.out or w.err:
+                which = "stdout" if w.out else "stderr"
+                acc.mismatch("C12|%s|stray-output:%s|v%s" % (fmt, which, vs(V)), file=label, nbytes=w.out or w.err,
+                             text=w.tail(1 if w.out else 2, 200))
+            text = buf.getvalue()
+            if not text.strip():
+                acc.mismatch("C12|%s|empty-listing|v%s" % (fmt, vs(V)), file=label)
+                continue
+            if nontriv:
+                acc.distinct.add(sha([label, fmt]))
+            if fmt not in ("classic", "bytes"):
+                continue
+            # faithful to the instruction stream
+            try:
+                if stream is None:
+                    opc = get_opcode(version, is_pypy)
+                    stream = [x for k, x in expected_rows(co, opc) if k == "ins"]
+            except BaseException as e:
+                if isinstance(e, (KeyboardInterrupt, SystemExit)):
+                    raise
+                acc.count("stream_unavailable")
+                continue
+            rows, unparsed = parse_listing(text)
+            if unparsed:
+                acc.mismatch("C12|%s|unparseable-line|v%s" % (fmt, vs(V)), file=label, line=unparsed[0][:160], n=len(unparsed))
+                continue
+            rows = [r for r in rows if r["op"] != "CACHE"]
+            exp = [i for i in stream if i.opname != "CACHE"]
+            acc.count("c12_listing_rows_checked", len(rows))
+            if len(rows) != len(exp):
+                acc.mismatch("C12|%s|row-count|v%s" % (fmt, vs(V)), file=label, listing=len(rows), stream=len(exp))
+                continue
+            for r, i in zip(rows, exp):
+                if r["off"] != i.offset or r["op"] != i.opname:
+                    acc.mismatch("C12|%s|row-order|v%s" % (fmt, vs(V)), file=label, listing=[r["off"], r["op"]],
+                                 stream=[i.offset, i.opname])
+                    break
+                if r["jt"] != bool(i.is_jump_target):
+                    acc.mismatch("C12|%s|jump-mark|v%s" % (fmt, vs(V)), file=label, offset=i.offset, listing=r["jt"],
+                                 stream=bool(i.is_jump_target))
+                    break
+                if V >= (2, 3) and r["line"] != i.starts_line:
+                    acc.mismatch("C12|%s|line-number-column|v%s" % (fmt, vs(V)), file=label, offset=i.offset,
+                                 listing=r["line"], stream=i.starts_line)
+                    break
+                if i.arg is None:
+                    want = ""
+                elif not i.argrepr:
+                    want = repr(i.arg)
+                else:
+                    want = "(%s)" % i.argrepr
+                if _ADDR_RE.sub("0x?", r["operand"]) != _ADDR_RE.sub("0x?", want.strip()):
+                    acc.mismatch("C12|%s|operand|%s|v%s" % (fmt, i.optype, vs(V)), file=label, offset=i.offset, opname=i.opname,
+                                 listing=r["operand"][:120], stream=want[:120])
+                    break
+                if fmt == "bytes" and r["hex"] is not None:
+                    hx = r["hex"].split()
+                    if int(hx[0], 16) != i.opcode:
+                        acc.mismatch("C12|bytes|hex-opcode|v%s" % vs(V), file=label, offset=i.offset)
+                        break
+        if len(acc.samples) < 3:
+            acc.sample({"file": label, "version": vs(V), "formats": formats})
+    return acc.result()
+
+
+CMDS["listings"] = cmd_listings
+
+
+
+# ---------------------------------------------------------------------------
+# C07 host / loader-path independence: renderings + digests per file
+
+
+def mask_listing(text):
+    out = []
+    skip_next_bracket = False
+    for ln in text.split("\n"):
+        if ln.startswith("# Disassembled from"):
+            skip_next_bracket = True
+            continue
+        if skip_next_bracket and ln.startswith("# ["):
+            skip_next_bracket = False
+            continue
+        skip_next_bracket = False
+        out.append(_ADDR_RE.sub("0x?", ln))
+    return "\n".join(out)
+
+
+def stream_render(co, opc, V):
+    from xdis.bytecode import Bytecode
+
+    lines = []
+    for path, c in C.walk_code(co):
+        lines.append("@code %s %s" % (path, C.canon(c.co_name, V, "ref")))
+        try:
+            for i in Bytecode(c, opc, dup_lines=False):
+                try:
+                    av = json.dumps(C.short(C.canon(i.argval, V, "ref")))
+                except Exception as e:
+                    av = "canon-raises:" + type(e).__name__
+                lines.append("%d %d %s %r %s %s %r" % (i.offset, i.opcode, i.opname, i.arg, av, bool(i.is_jump_target), i.starts_line))
+            lines.append("labels %r" % (sorted(set(opc.findlabels(c.co_code, opc))),))
+            lines.append("linestarts %r" % ([tuple(x) for x in opc.findlinestarts(c)],))
+        except Exception as e:
+            lines.append("raises %s" % type(e).__name__)
+    return "\n".join(lines)
+
+
+def tree_render(co, V):
+    lines = []
+    for path, c in C.walk_code(co):
+        d = C.canon_code(c, V, "ref")
+        for f in sorted(d):
+            lines.append("%s %s %s" % (path, f, json.dumps(C.short(d[f]))))
+    return "\n".join(lines)
+
+
+def cmd_digest(args):
+    import warnings
+
+    warnings.simplefilter("ignore")
+    from xdis.disasm import disassemble_file, disco, get_opcode
+    from xdis.load import load_module
+    from xdis.magics import magic2int
+    from xdis.codetype import codeType2Portable
+    from xdis.codetype.base import CodeBase
+
+    out = {"host": list(HOSTV), "files": {}}
+    formats = args["formats"]
+    for item in args["files"]:
+        pyc, label = item["pyc"], item["label"]
+        rec = {}
+        try:
+            (version, ts, magic_int, co, is_pypy, size, sip) = load_module(pyc)
+        except BaseException as e:
+            if isinstance(e, (KeyboardInterrupt, SystemExit)):
+                raise
+            out["files"][label] = {"load": "raises:" + type(e).__name__}
+            continue
+        V = tuple(version[:2])
+        native = not isinstance(co, CodeBase)
+        rec["meta"] = "%r %r %r %r %r %r" % (tuple(version), ts, magic_int, is_pypy, size, sip)
+        try:
+            opc = get_opcode(version, is_pypy)
+        except Exception as e:
+            out["files"][label] = {"load": "get_opcode-raises:" + type(e).__name__}
+            continue
+
+        def safe(fn):
+            try:
+                return fn()
+            except BaseException as e:
+                if isinstance(e, (KeyboardInterrupt, SystemExit)):
+                    raise
+                return "raises:%s" % type(e).__name__
+
+        rec["tree"] = safe(lambda: tree_render(co, V))
+        rec["stream"] = safe(lambda: stream_render(co, opc, V))
+        for fmt in formats:
+            def lst():
+                buf = io.StringIO()
+                disassemble_file(pyc, outstream=buf, asm_format=fmt)
+                return mask_listing(buf.getvalue())
+            rec["listing:" + fmt] = safe(lst)
+        if native:
+            # other loader paths for a file of the host's own version
+            with open(pyc, "rb") as f:
+                data = f.read()
+            hl = 16 if V >= (3, 7) else (12 if V >= (3, 3) else 8)
+
+            def portable():
+                return portable_load(data, hl, magic2int(data[:4]))[0]
+
+            pco = safe(portable)
+            if isinstance(pco, str):
+                rec["tree@load_code"] = pco
+            else:
+                rec["tree@load_code"] = safe(lambda: tree_render(pco, V))
+                rec["stream@load_code"] = safe(lambda: stream_render(pco, opc, V))
+                for fmt in formats:
+                    if fmt == "header":
+                        continue
+
+                    def lst2():
+                        buf = io.StringIO()
+                        disco(version, pco, ts, out=buf, is_pypy=is_pypy, magic_int=magic_int, source_size=size,
+                              sip_hash=sip, asm_format=fmt)
+                        return mask_listing(buf.getvalue())
+                    rec["listing@load_code:" + fmt] = safe(lst2)
+            rec["stream@codeType2Portable"] = safe(lambda: stream_render(codeType2Portable(co), opc, V))
+        out["files"][label] = rec
+    # renderings go to a side file, digests to the result
+    side = args["side"]
+    with open(side, "w") as f:
+        json.dump(out, f)
+    dig = {"host": list(HOSTV), "files": {}, "side": side}
+    for label, rec in out["files"].items():
+        dig["files"][label] = dict((k, sha(v.encode("utf-8", "surrogatepass"))) for k, v in rec.items())
+    return dig
+
+
+CMDS["digest"] = cmd_digest
+
+
 if __name__ == "__main__":
     main()
